@@ -625,6 +625,8 @@ class _NPX(object):
         return self._filled(shape, S(sym.UNINIT))
 
     def full(self, shape, fill_value, dtype=None, **kw):
+        if (isinstance(fill_value, (bool, _np.bool_)) or (self._plain_dtype(dtype) and not _symbolic(fill_value))) and not _sym_shape(_shape_arg(shape)):
+            return _np.full(_cshape(_shape_arg(shape)), fill_value, dtype=dtype)        # masks / counters stay plain numpy arrays, as for zeros / ones
         if sym.CTX is None and not _sym_shape(_shape_arg(shape)) and not _symbolic(fill_value):
             return _np.full(shape, fill_value)
         return self._filled(shape, fill_value if isinstance(fill_value, (S,)) else mk(w(fill_value)))
